@@ -35,11 +35,21 @@ type stats struct {
 func main() {
 	if len(os.Args) == 3 && os.Args[1] == "dump-units" {
 		// development aid: write the catalogue to a directory, one file per unit form
-		for _, c := range unitCases() {
+		w, u := unitCases()
+		for _, c := range append(w, u...) {
 			p := filepath.Join(os.Args[2], strings.ReplaceAll(keyName(c), "/", "_")+".php")
 			_ = os.MkdirAll(filepath.Dir(p), 0o755)
 			_ = os.WriteFile(p, []byte(c.Src), 0o644)
 		}
+		return
+	}
+	if len(os.Args) == 2 && os.Args[1] == "list-corpus" {
+		e := lib.Init("C16", "translation_validation")
+		for _, c := range corpusCases(e) {
+			fmt.Println(c.Name, c.NoRun, c.Features)
+		}
+		fmt.Println("left out:", corpusDuplicateDecl)
+		_ = os.RemoveAll(e.Scratch)
 		return
 	}
 	e := lib.Init("C16", "translation_validation")
@@ -131,43 +141,63 @@ func main() {
 		}
 	}
 
-	// ---- stage 1: the enumerated construct catalogue (stable keys; decides quarantine)
-	units := unitCases()
-	b1 := newBatches(e, "units", units, 400)
-	all1, inc1 := runBatches(b1, 4, regTmpl, mainGo)
-	for _, s := range inc1 {
-		e.Inconclusive(s)
-	}
-	process(b1, all1)
-
-	// ---- stage 2: seeded programs and corpus files, features of active findings switched off
+	// ---- stage 0: the witness units of the catalogue: one small program per known defect
+	// (stable keys). They decide which features the later stages must leave out.
+	witnesses, units := unitCases()
 	off := func(f string) bool { return e.Quarantined(f) }
 	skippedQ := map[string]int{}
-	var stage2 []*pcase
-	for _, c := range append(randomCases(e, off), corpusCases(e)...) {
-		q := ""
-		for _, f := range c.Features {
-			if off(f) {
-				q = f
-				break
-			}
-		}
-		if q != "" {
-			skippedQ[q]++
-			continue
-		}
-		stage2 = append(stage2, c)
+	b0 := newBatches(e, "witness", witnesses, 400)
+	all0, inc0 := runBatches(b0, 4, regTmpl, mainGo)
+	for _, s := range inc0 {
+		e.Inconclusive(s)
 	}
+	process(b0, all0)
+	pe0, pd0, psamples0 := runProjects(e, true, off, skippedQ)
+
+	filter := func(cs []*pcase) []*pcase {
+		var out []*pcase
+		for _, c := range cs {
+			q := ""
+			for _, f := range c.Features {
+				if off(f) {
+					q = f
+					break
+				}
+			}
+			if q != "" {
+				skippedQ[q]++
+				continue
+			}
+			out = append(out, c)
+		}
+		return out
+	}
+
+	// ---- stage 1+2: the rest of the catalogue, seeded programs and corpus files, without the
+	// features of the findings that are still active
+	stage2 := filter(append(append(units, randomCases(e, off)...), corpusCases(e)...))
+	// ---- projects: the repository's built-in templates, unchanged, one entry file
+	pe, pd, psamples := runProjects(e, false, off, skippedQ)
+	pe, pd, psamples = pe+pe0, pd+pd0, append(psamples0, psamples...)
+	executed += pe
+	programs += pe
+	disagreements += pd
+	st.byFamily["project"] = pe
 	var b2 []*batch
 	var rest []*pcase
 	var corpus []*pcase
+	var unitsLeft []*pcase
 	for _, c := range stage2 {
-		if c.Family == "corpus" {
+		switch c.Family {
+		case "corpus":
 			corpus = append(corpus, c)
-		} else {
+		case "unit":
+			unitsLeft = append(unitsLeft, c)
+		default:
 			rest = append(rest, c)
 		}
 	}
+	b2 = append(b2, newBatches(e, "units", unitsLeft, 400)...)
 	b2 = append(b2, newBatches(e, "corpus", corpus, 1<<30)...)
 	b2 = append(b2, newBatches(e, "seeded", rest, e.Pick(70, 250))...)
 	all2, inc2 := runBatches(b2, e.Pick(6, 4), regTmpl, mainGo)
@@ -182,6 +212,7 @@ func main() {
 	e.Extra("interpreted_run_ended_normally", st.interpOK)
 	e.Extra("interpreted_run_ended_with_error", st.interpErr)
 	e.Extra("cases_skipped_as_unstable", st.unstable)
+	e.Extra("corpus_files_left_out_duplicate_class_names", corpusDuplicateDecl)
 	e.Extra("skipped_by_quarantined_feature", skippedQ)
 	e.Extra("batches", batchInfo)
 	e.Extra("catalogue_units_not_accepted_by_compile", unitRej)
@@ -190,8 +221,9 @@ func main() {
 	e.Assume("positions (file:line:col, `on line N`), stack-trace lines, wall-clock stamps and Go addresses are removed from both sides before comparing: the translator does not carry positions",
 		"the batch binary uses the repository's built-in register/main templates with two changes (one registration per file incl. registerClasses; path from argv)",
 		"corpus files that use time/random/process/network/file-writing builtins, or whose two interpreted runs differ, are outside the compared domain")
+	samples = append(samples, psamples...)
 	if len(samples) == 0 {
-		for _, rs := range all1 {
+		for _, rs := range all0 {
 			for _, r := range rs {
 				if r.Status == stRan && len(samples) < 2 {
 					samples = append(samples, map[string]any{"case": r.C.Name, "source": r.C.Src, "stdout_interpreted": r.Interp.Stdout, "stdout_compiled": r.Comp.Stdout})
